@@ -11,6 +11,7 @@ from ..cfg import CFG
 from ..model import Repo
 from ..report import Report
 from ..util import AnalysisError, always_raises, call_name, chain, norm, raised_names, short, walk_body
+from .compiled import shape_of
 from .c02 import node_calls
 
 ARITH = ["add", "sub", "mul", "floordiv", "mod", "pow", "lshift", "rshift", "and", "xor", "or"]
@@ -62,6 +63,7 @@ def config_rule(repo: Repo, rep: Report, rid: str) -> None:
     rep.floor(rid, "configuration obligations", n, 6)
 
 
+@shape_of("compiled")
 def construction_parity_rule(repo: Repo, rep: Report, rid: str) -> None:
     rep.rule(rid, "pointer construction parity: every Pointer built during a parse (interpreter and generated reader) receives "
                   "(value, the input stream, the context / in-progress result dict)")
